@@ -1138,6 +1138,15 @@ class Frame(registering.StoriedRegistrar):
         if len(set(self.unders)) != len(self.unders): # duplicates
             raise excepting.ResolveError("Duplicate under", name=self.name, value=self.unders)
 
+        # primary unders must not lead back to a frame already passed (traceOutline would never end)
+        descended = set([id(self)])
+        frame = self.under
+        while isinstance(frame, Frame):
+            if id(frame) in descended:
+                raise excepting.ResolveError("Outline unders create loop", name=self.name, value=frame.name)
+            descended.add(id(frame))
+            frame = frame.under
+
     def expose(self):
         """Prints out instance variables.
 
